@@ -4,6 +4,7 @@ package c26
 import (
 	"fmt"
 	"google.golang.org/protobuf/types/known/anypb"
+	"sort"
 	"strings"
 	"sync/atomic"
 
@@ -81,7 +82,7 @@ func fieldIn(m protoreflect.Message, fd protoreflect.FieldDescriptor) protorefle
 }
 
 func run(c *core.Ctx) {
-	c.Rule = "uniqueness: for 9 types, every ordered pair of (representative field | oneof member | extension) pieces, in JSON (each piece spelled with its JSON name and with its proto name: 4 spellings per pair) and in text format: naming a non-repeated field twice, or two members of one oneof, must be rejected; two different compatible fields must be accepted. Totality: every sequence of <=N tokens over JSON and text token alphabets (braces, brackets, separators, a known singular field name in both spellings, a repeated field name, two oneof member names, an extension name, an unknown name, scalar / string / literal values) and every byte string of <=4 over a 14-byte alphabet is decoded into 3 types without panic. Any: every document naming type_url or value twice (first occurrence empty or not), or mixing the expanded form with a plain field, at top level and nested, and JSON Any objects with a duplicated key, must be rejected. Depth: documents nested to depth limit-1, limit, limit+1 through message fields, Struct/ListValue/Value for RecursionLimit in {1,2,3,5,8}, and through expanded Any (Any inside Any, message / Any alternating; JSON and text; every document also decoded with limit 1000 to show it is well-formed): deeper than the limit must be rejected"
+	c.Rule = "uniqueness: for 9 types, every ordered pair of (representative field | oneof member | extension) pieces, in JSON (each piece spelled with its JSON name and with its proto name: 4 spellings per pair) and in text format: naming a non-repeated field twice, or two members of one oneof, must be rejected; two different compatible fields must be accepted. Totality: every sequence of <=N tokens over JSON and text token alphabets (braces, brackets, separators, a known singular field name in both spellings, a repeated field name, two oneof member names, an extension name, an unknown name, scalar / string / literal values) and every byte string of <=4 over a 14-byte alphabet is decoded into 3 types without panic. Any: every document naming type_url or value twice (first occurrence empty or not), or mixing the expanded form with a plain field, at top level and nested, and JSON Any objects with a duplicated key, must be rejected. Foreign extension keys: every registered extension named as [full.name] in a document for each of 6 targets it may or may not extend (generated and dynamicpb), followed by 7 kinds of value, JSON and text: no panic. Depth: documents nested to depth limit-1, limit, limit+1 through message fields, Struct/ListValue/Value for RecursionLimit in {1,2,3,5,8}, and through expanded Any (Any inside Any, message / Any alternating; JSON and text; every document also decoded with limit 1000 to show it is well-formed): deeper than the limit must be rejected"
 	c.Exhaustive = true
 	var n atomic.Int64
 	types := []string{"goproto.proto.test.TestAllTypes", "goproto.proto.test3.TestAllTypes", "goproto.proto.testeditions.TestAllTypes", "opaque.goproto.proto.testeditions.TestAllTypes", "goproto.proto.test.TestAllExtensions", "pb3.Proto3Optional", "pb3.Oneofs", "pb2.Nests", "pb2.KnownTypes"}
@@ -195,6 +196,7 @@ func run(c *core.Ctx) {
 	// depth
 	anyDuplicates(c, &n)
 	depthFamilies(c, &n)
+	foreignExtensionKeys(c, &n)
 	c.Eval(n.Load())
 	c.DistinctN(n.Load())
 }
@@ -404,4 +406,49 @@ func depthFamilies(c *core.Ctx, n *atomic.Int64) {
 	}
 	c.Assume("depth accounting: a document with d nested message levels (top level = 1) must be rejected when d > RecursionLimit and accepted when d <= RecursionLimit for plain message fields; for Struct/Value/ListValue (two messages per JSON level) only 'far beyond the limit is rejected' is asserted")
 	var _ proto.Message
+}
+
+// foreignExtensionKeys: totality when a document names, as [full.name], an
+// extension that exists but extends ANOTHER message - whatever its field
+// number (inside or outside the target's extension ranges) and whatever value
+// follows. Every registered extension x every extendable target x 7 values,
+// JSON and text.
+func foreignExtensionKeys(c *core.Ctx, n *atomic.Int64) {
+	var xts []protoreflect.ExtensionType
+	protoregistry.GlobalTypes.RangeExtensions(func(xt protoreflect.ExtensionType) bool { xts = append(xts, xt); return true })
+	sort.Slice(xts, func(i, j int) bool { return xts[i].TypeDescriptor().FullName() < xts[j].TypeDescriptor().FullName() })
+	targets := []string{"goproto.proto.test.TestAllExtensions", "goproto.proto.testeditions.TestAllExtensions", "opaque.goproto.proto.testeditions.TestAllExtensions", "goproto.proto.test.TestPackedExtensions", "goproto.proto.test.TestAllTypes", "pb2.Extensions"}
+	jvals := []string{"1", "[1]", `"x"`, "{}", "[{}]", "true", "null"}
+	tvals := []string{": 1", ": [1]", `: "x"`, " {}", ": [{}]", ": true", " <>"}
+	type job struct {
+		target string
+		xt     protoreflect.ExtensionType
+	}
+	var jobs []job
+	for _, t := range targets {
+		if _, err := protoregistry.GlobalTypes.FindMessageByName(protoreflect.FullName(t)); err != nil {
+			continue
+		}
+		for _, xt := range xts {
+			jobs = append(jobs, job{t, xt})
+		}
+	}
+	c.Par(len(jobs), func(i int) {
+		j := jobs[i]
+		name := string(j.xt.TypeDescriptor().FullName())
+		for _, f := range []univ.Flavor{univ.Gen(j.target), univ.Dyn(j.target)} {
+			for vi := range jvals {
+				jdoc := `{"[` + name + `]":` + jvals[vi] + `}`
+				tdoc := "[" + name + "]" + tvals[vi]
+				c.Guard(func() string { return "protojson.Unmarshal type=" + f.Name + " doc=" + jdoc }, func() {
+					protojson.UnmarshalOptions{AllowPartial: true}.Unmarshal([]byte(jdoc), f.MT.New().Interface())
+				})
+				c.Guard(func() string { return "prototext.Unmarshal type=" + f.Name + " doc=" + tdoc }, func() {
+					prototext.UnmarshalOptions{AllowPartial: true}.Unmarshal([]byte(tdoc), f.MT.New().Interface())
+				})
+				n.Add(2)
+			}
+		}
+	})
+	c.Bounds["foreign_extension_keys"] = map[string]any{"registered_extensions": len(xts), "targets": targets, "values": len(jvals), "formats": 2}
 }
